@@ -443,11 +443,15 @@ class Topology(System):
                 # graph nodes are permuted with respect to the index
                 idx_nodes = nx.get_node_attributes(meta_mol.nodes[meta_node]['graph'], "index")
                 mol_nodes = sorted(idx_nodes, key=idx_nodes.get)
+                # residues that already got coordinates at the molecule level
+                # keep them; their entry in the meta_molecule file is skipped
+                if resolution == 'meta_mol' and not meta_mol.nodes[meta_node]["backmap"]:
+                    total += 1
                 # skip residue if resname is to be skipped or
                 # if the no more coordinates are available
                 # in that case we want to build the node and
                 # backmap it
-                if resname in skip_res or total >= max_coords:
+                elif resname in skip_res or total >= max_coords:
                     meta_mol.nodes[meta_node]["build"] = True
                     meta_mol.nodes[meta_node]["backmap"] = True
                 # here we only add meta_molecule coordiantes
